@@ -84,6 +84,7 @@ type simCluster struct {
 	hold     map[string]chan struct{}
 	dialHold chan struct{}
 	zkHold   chan struct{} // LocateResource waits for it to be closed
+	slowNew  time.Duration // the connection factory takes this long
 }
 
 func newSimCluster() *simCluster {
@@ -136,6 +137,9 @@ type simConn struct {
 }
 
 func (c *simCluster) newConn(addr string) *simConn {
+	if c.slowNew > 0 {
+		time.Sleep(c.slowNew)
+	}
 	c.mu.Lock()
 	defer c.mu.Unlock()
 	c.seq++
@@ -302,7 +306,8 @@ func (s *simConn) serve(call hrpc.Call) {
 		return
 	}
 	sv.hosted = true
-	sv.inRange = reg.contains(call.Key())
+	// (a request for another table that names this region is as wrong as a key outside its range)
+	sv.inRange = reg.contains(call.Key()) && string(reg.fq()) == sv.table
 	for len(reg.faults) > 0 && reg.faults[0] == "ok-probe" {
 		reg.faults = reg.faults[1:]
 		if sv.kind == "probe" && sv.inRange {
